@@ -111,7 +111,7 @@ fn k_opponent_piece_mask() {
 //  threatened_pieces / supported_pieces / opponent_piece_mask via stub_verified -- was tried twice and runs out of memory
 //  (5 GB and 20 GB caps); the statement is discharged in the symbolic-square form below, with the callee bodies inlined.)
 
-// @obl props=C01,C02,C07,C12,C13,C19 tier=quick kind=harness-contract mem=3 est=20
+// @obl props=C01,C02,C07,C10,C12,C13,C19 tier=quick kind=harness-contract mem=3 est=20
 // @fns GameState::curr_player_non_frozen_pieces GameState::threatened_pieces supported_pieces GameState::opponent_piece_mask influenced_squares
 // @clause requires board_wf ensures forall i: bit(r,i) <=> a piece of the mover stands on i and is not frozen (no stronger enemy adjacent, or a friend adjacent)
 #[kani::proof]
@@ -128,7 +128,7 @@ fn k_curr_player_non_frozen_pieces() {
     };
     assert!(bit(r, i) == (mine && !frozen(&pb, i)), "C01: non-frozen mask = own pieces that are not frozen");
 }
-// @obl props=C01,C02,C11,C12,C13,C19 tier=quick kind=harness-contract mem=2 est=5
+// @obl props=C01,C02,C10,C11,C12,C13,C19 tier=quick kind=harness-contract mem=2 est=5
 // @fns influenced_squares shift_pieces_in_direction shift_pieces_in_opp_direction shift_in_direction can_move_in_direction
 // @clause forall i,d,x: influenced_squares / shift_pieces_in_direction / shift_pieces_in_opp_direction / can_move_in_direction agree with neighbour arithmetic on file and rank (edge masks prevent wrap-around); shift_in_direction moves a single bit to nbr(i,d) when that exists
 #[kani::proof]
@@ -404,7 +404,7 @@ pub fn seam_offers(v: &[Action], base: usize, i: u8, d: Direction) -> bool {
 // ===========================================================================
 // C01 generators (layer 3)
 // ===========================================================================
-// @obl props=C01,C02,C04,C07,C12,C13,C19 tier=quick kind=harness-contract mem=4 est=60
+// @obl props=C01,C02,C04,C07,C10,C12,C13,C19 tier=quick kind=harness-contract mem=4 est=60
 // @fns GameState::extend_with_valid_curr_player_piece_moves GameState::curr_player_non_frozen_pieces can_move_in_direction GameState::invalid_rabbit_moves
 // @clause requires board_wf. ensures (seam abstracted, A1): one Move(REP,d) is appended per seam call with a non-empty mask, at most one call per direction, nothing else; forall (i,d): bit(mask_d,i) <=> simple_step(pb,side,i,d) = unfrozen piece of the mover on i, nbr(i,d) empty, not a rabbit moving backward
 #[kani::proof]
@@ -423,7 +423,7 @@ fn c01_gen_steps() {
     assert!(seam_list_ok(&v, 0, rep), "C01: one Move(REP,d) per non-empty direction mask handed to the seam, each direction at most once");
     assert!(seam_offers(&v, 0, i, d) == simple_step(&pb, side, i, d), "C01: offered single steps == legal single steps");
 }
-// @obl props=C01,C02,C04,C07,C12,C13,C19 tier=quick kind=harness-contract mem=5 est=90
+// @obl props=C01,C02,C04,C07,C10,C12,C13,C19 tier=quick kind=harness-contract mem=5 est=90
 // @fns GameState::extend_with_push_piece_actions GameState::curr_player_non_frozen_pieces GameState::threatened_pieces can_move_in_direction PushPullState::can_push
 // @clause requires board_wf, wf_status, step in 0..3 (all four, symbolic). ensures (seam abstracted): nothing is produced when a push is pending or step == 3; otherwise forall (i,d): bit(mask_d,i) <=> push_start = enemy piece on i, nbr(i,d) empty, an unfrozen strictly stronger piece of the mover adjacent to i
 #[kani::proof]
@@ -508,7 +508,7 @@ pub fn all_moves(v: &[Action]) -> bool {
     r
 }
 
-// @obl props=C01,C02,C07,C12,C13,C19 tier=quick kind=harness-contract mem=10 est=60 timeout=1500
+// @obl props=C01,C02,C07,C10,C12,C13,C19 tier=quick kind=harness-contract mem=10 est=60 timeout=1500
 // @fns GameState::extend_with_pull_piece_actions GameState::lesser_pieces GameState::opponent_piece_mask shift_pieces_in_direction shift_pieces_in_opp_direction Square::from_bit_board PushPullState::as_possible_pull
 // @clause requires board_wf, wf_status. ensures (real Vec, <= 4 entries): started from an empty list the result contains Move(i,d) <=> status is PossiblePull(psq,pt) and pull_complete(psq,pt,i,d) = strictly weaker enemy on i steps into the vacated square; no duplicates; only Moves; at most 4
 #[kani::proof]
@@ -535,7 +535,7 @@ fn c01_gen_pull() {
     let pp = pp_of(st);
     assert!(all_legal(&v, 0, |s, e| match pp { Pp::Pull(psq, pt) => pull_complete(&pb, side, psq, pt, s, e), _ => false }), "C01/C19: every listed pull completion is a legal step from a real square");
 }
-// @obl props=C01,C02,C12,C13,C19 tier=quick kind=harness-contract mem=10 est=60 timeout=1500
+// @obl props=C01,C02,C10,C12,C13,C19 tier=quick kind=harness-contract mem=10 est=60 timeout=1500
 // @fns GameState::extend_with_pull_piece_actions
 // @clause de-duplication: when the list already holds one Move (e.g. the same step offered as a push start) the pull generator appends a completion only if it is not that action, keeps the prefix, and never duplicates
 #[kani::proof]
@@ -573,7 +573,7 @@ fn c01_gen_pull_dedup() {
     let pp = pp_of(st);
     assert!(all_legal(&v, 1, |s, e| match pp { Pp::Pull(psq, pt) => pull_complete(&pb, side, psq, pt, s, e), _ => false }), "C01/C19: everything appended is a legal pull completion from a real square");
 }
-// @obl props=C01,C02,C07,C12,C13,C19 tier=quick kind=harness-contract mem=5 est=160
+// @obl props=C01,C02,C07,C10,C12,C13,C19 tier=quick kind=harness-contract mem=5 est=160
 // @fns GameState::must_complete_push_actions GameState::curr_player_non_frozen_pieces shift_pieces_in_opp_direction piece_type_at_bit PushPullState::unwrap_must_complete_push Square::from_bit_board
 // @clause requires board_wf, status == MustCompletePush(psq,vt) with wf_status. ensures (real Vec): result contains Move(i,d) <=> push_complete = unfrozen piece of the mover on i, strictly stronger than the pushed piece, nbr(i,d) == psq (empty); 1 <= len <= 4 (continuability); no duplicates; no panic (unwrap_must_complete_push, piece_type_at_bit on an occupied bit)
 #[kani::proof]
@@ -675,7 +675,7 @@ fn c06_can_pass() {
 // ===========================================================================
 // C12  next_push_pull_state / move_can_be_counted_as_pull
 // ===========================================================================
-// @obl props=C12,C01,C19 tier=quick kind=harness-contract mem=4 est=60
+// @obl props=C01,C10,C12,C19 tier=quick kind=harness-contract mem=4 est=60
 // @fns GameState::next_push_pull_state GameState::move_can_be_counted_as_pull GameState::is_their_piece piece_type_at_bit shift_in_direction
 // @clause requires board_wf, wf_status, Move(i,d) offered by the rules (offered_move), step 0..2. ensures status' == next_pp: enemy displaced and not completing a pull -> MustCompletePush(i, type); own non-rabbit stepped and not completing a push -> PossiblePull(i, type); else None
 #[kani::proof]
@@ -698,7 +698,7 @@ fn c12_next_status() {
     let r = gs.next_push_pull_state(&sq(i), &d);
     assert!(pp_of(r) == next_pp(&pb, side, pp, i, d), "C12: reported status describes the step just made");
 }
-// @obl props=C12,C01,C19 tier=quick kind=harness-contract mem=4 est=120
+// @obl props=C01,C10,C12,C19 tier=quick kind=harness-contract mem=4 est=120
 // @fns PieceBoard::take_action GameState::next_push_pull_state
 // @clause invariant preservation (heap-free): legal_board, wf_status, Move(i,d) offered by the rules, step 0..2 ==> after the step the status invariant holds again on the new board: PossiblePull(s,p) => s empty, p not a rabbit; MustCompletePush(s,p) => s empty, p not an elephant, and an unfrozen strictly stronger piece of the mover is adjacent to s (so the push can be completed: continuability); the new board is legal
 #[kani::proof]
@@ -1340,7 +1340,7 @@ fn no_dups(a: &[Action]) -> bool {
     ok
 }
 
-// @obl props=C01,C02,C06,C07,C12,C13,C19 tier=quick kind=harness-contract mem=8 est=200 timeout=1800
+// @obl props=C01,C02,C06,C07,C10,C12,C13,C19 tier=quick kind=harness-contract mem=8 est=200 timeout=1800
 // @fns GameState::valid_actions_ GameState::valid_actions_no_rep GameState::valid_actions
 // @clause assembly, fully modular: the four generators, can_pass and remove_passing_like_actions are replaced by abstractions of their contracts (0..1 symbolic action each, disjointness as proved; the filter abstraction appends a marker to the list it is given); both flag values, all statuses: the list is, as a set, completions when a push is pending, else push starts + pull completions not already listed + own steps + [Pass iff can_pass(flag)], nothing twice; with repetition checking the filter is invoked exactly once, last, on the whole list, never without; apart from Pass both flag values give the same sequence
 #[kani::proof]
@@ -1917,7 +1917,7 @@ fn public_state(pb: &PieceBoardState, side: bool, step: usize, st: PushPullState
 }
 // @obl props=C02,C10,C13,C19 tier=quick kind=harness-contract mem=6 est=200 timeout=1800
 // @fns GameState::take_action GameState::piece_board GameState::trapped_animal_for_action GameState::new PieceBoard::new PlayPhase::new
-// @clause public API only. requires legal_board, an occupied square i, nbr(i,d) on the board and empty (every offered step is of this form). ensures the state after take_action(Move(i,d)) has, per square, exactly the content the rules prescribe (after_step_at: the piece moved one square keeping type and owner, every piece left on a trap without a friendly neighbour is gone, nothing else changed); all eight words consistent and trap-clean; trapped_animal_for_action returns None iff nothing was removed and otherwise the square/type/owner of the piece that disappears
+// @clause public API only. requires legal_board, a status allowed by the invariant after one step of a turn (nothing pending / possible pull / push to complete) and a step the rules offer there. ensures the state after take_action(Move(i,d)) has, per square, exactly the content the rules prescribe (after_step_at: the piece moved one square keeping type and owner, every piece left on a trap without a friendly neighbour is gone, nothing else changed); all eight words consistent and trap-clean; trapped_animal_for_action returns None iff nothing was removed and otherwise the square/type/owner of the piece that disappears
 #[kani::proof]
 #[kani::unwind(6)]
 #[kani::stub(crate::zobrist::piece_board_value, pbv_ghost)]
@@ -1926,7 +1926,11 @@ fn c02_public_step() {
     let side: bool = kani::any();
     let i = any_sq();
     let d = any_direction();
-    kani::assume(at(&pb, i).is_some());
+    // any state the invariant allows after one step of a turn (nothing pending / possible pull / push to complete), and any step the rules offer there
+    let st = any_status();
+    let pp = pp_of(st);
+    kani::assume(wf_status(&pb, side, 1, pp));
+    kani::assume(offered_move(&pb, side, 1, pp, i, d));
     let dst = match nbr(i, d) {
         Some(j) => j,
         None => {
@@ -1934,10 +1938,10 @@ fn c02_public_step() {
             0
         }
     };
-    kani::assume(at(&pb, dst).is_none());
     let q = any_sq();
-    let gs = public_state(&pb, side, 0, PushPullState::None);
+    let gs = public_state(&pb, side, 1, st);
     kani::cover!(captures_any(&pb, i, dst));
+    kani::cover!(matches!(pp, Pp::Push(_, _)) && captures_any(&pb, i, dst), "a push completion that captures");
     let preview = gs.trapped_animal_for_action(&mv(i, d));
     let ns = gs.take_action(&mv(i, d));
     let nb = ns.piece_board();
@@ -1991,7 +1995,7 @@ fn c03_public_counters() {
     public_counters(2);
     public_counters(3);
 }
-// @obl props=C12,C19 tier=quick kind=harness-contract mem=6 est=150 timeout=1800
+// @obl props=C01,C02,C10,C12,C19 tier=quick kind=harness-contract mem=6 est=150 timeout=1800
 // @fns GameState::take_action PlayPhase::push_pull_state
 // @clause public API only, step 1 (any status allowed by the invariant), every step the rules offer: the status reported by the new state is next_pp (push to complete naming the vacated square and the displaced type / possible pull naming the square left and the type / nothing)
 #[kani::proof]
@@ -2035,6 +2039,61 @@ fn c07_has_move_monolithic_step0() {
     } else {
         assert!(unsafe { SEAM_N } >= 1, "C07: no loss reported => some generator produced an action");
     }
+}
+// ===========================================================================
+// C08 at the GameState level on CONCRETE states (bounded companion).  The unbounded argument is the chain
+// transition obligations (difference form, board delta as a ghost) + Verus units pbv/fpb; this companion runs the real
+// take_action with the real piece_board_value and compares with the real from-scratch hash, on a few concrete scenarios
+// (captures by either colour, at a first step and at the turn-ending fourth step).  It keeps a semantic check with a
+// concrete input alive when move_piece is restructured around the hash update.
+// ===========================================================================
+fn hash_scenario(board: PieceBoard, side: bool, step: usize, from: u8, d: Direction, expect_capture: bool) {
+    let h = Zobrist::from_piece_board(board.piece_board(), side, step);
+    let start = Zobrist::from_piece_board(board.piece_board(), side, 0);
+    let prev = match step {
+        0 => Vec::new(),
+        1 => vec![board.clone()],
+        _ => vec![board.clone(), board.clone(), board.clone()],
+    };
+    let pp = PlayPhase::new(start, List::new().append(start), prev, PushPullState::None, false);
+    let gs = GameState::new(side, 5, Phase::PlayPhase(pp), board, h);
+    let before = gs.piece_board().all_pieces.count_ones();
+    let ns = gs.take_action(&mv(from, d));
+    assert!((ns.piece_board().all_pieces.count_ones() < before) == expect_capture, "scenario as intended");
+    let scratch = Zobrist::from_piece_board(ns.piece_board(), ns.is_p1_turn_to_move(), ns.current_step());
+    assert!(raw(&ns.hash) == raw(&scratch), "C08: the incrementally maintained hash equals the from-scratch hash of the new state");
+    if ns.current_step() == 0 {
+        let np = ns.unwrap_play_phase();
+        assert!(np.hash_history().head().map(|z| raw(z)) == Some(raw(&scratch)) && raw(&np.initial_hash_of_move) == raw(&scratch), "C08: the recorded turn-start hash is the from-scratch hash");
+    }
+}
+// @obl props=C08,C05 tier=quick kind=harness-contract mem=6 est=250 timeout=2400
+// @bounded two concrete states/steps: a capture by Gold at step 0 and a capture by Silver on the turn-ending fourth step
+// @fns GameState::take_action GameState::move_piece Zobrist::move_piece piece_board_value Zobrist::from_piece_board
+// @clause on these scenarios the state hash after take_action (real incremental update, real board delta) equals Zobrist::from_piece_board of the new board, side and step; at a turn end the recorded history entry and initial hash are that value too
+#[kani::proof]
+#[kani::unwind(8)]
+fn c08_state_hash_concrete_smoke() {
+    kani::cover!(true);
+    let b = |i: u8| 1u64 << i;
+    // Gold cats on c3 (42) and b3 (41): b3 steps west, the c3 cat is captured (Gold, step 0)
+    hash_scenario(PieceBoard::new(b(42) | b(41), 0, 0, 0, 0, b(42) | b(41), 0), true, 0, 41, Direction::Left, true);
+    // Silver dog on f6 (21) supported by a silver rabbit on g6 (22): g6 steps east as the fourth step of Silver's turn
+    hash_scenario(PieceBoard::new(0, 0, 0, 0, b(21), 0, b(22)), false, 3, 22, Direction::Right, true);
+}
+// @obl props=C08,C05 tier=thorough kind=harness-contract mem=8 est=500 timeout=3600
+// @bounded four more concrete states/steps: a capture by Silver at step 0, by Gold on the fourth step, and two non-capturing steps
+// @fns GameState::take_action GameState::move_piece Zobrist::move_piece piece_board_value Zobrist::from_piece_board
+// @clause as c08_state_hash_concrete_smoke
+#[kani::proof]
+#[kani::unwind(8)]
+fn c08_state_hash_concrete_smoke_more() {
+    kani::cover!(true);
+    let b = |i: u8| 1u64 << i;
+    hash_scenario(PieceBoard::new(0, 0, 0, 0, b(21), 0, b(22)), false, 0, 22, Direction::Right, true);
+    hash_scenario(PieceBoard::new(b(45) | b(44), 0, 0, b(45) | b(44), 0, 0, 0), true, 3, 44, Direction::Up, true);
+    hash_scenario(PieceBoard::new(0, 0, b(27), 0, 0, 0, b(3)), false, 1, 27, Direction::Down, false);
+    hash_scenario(PieceBoard::new(b(36) | b(60), b(36), 0, 0, 0, 0, b(60)), true, 3, 36, Direction::Up, false);
 }
 // ===========================================================================
 // meta: the canary.  An `ensures` that is false on the real supported_pieces; it must FAIL.
